@@ -226,6 +226,7 @@ Goto ==
 \* Rules WITHOUT a functor (GR(g).dflt): the left-side value is constructed from the right-side values;
 \* no right side -> a default value (no observable call); a single nonterminal -> that value itself, moved.
 IsDflt(r) == \E k \in DOMAIN GR(g).dflt : GR(g).dflt[k] = r
+IsCtx(r) == \E k \in DOMAIN GR(g).ctxr : GR(g).ctxr[k] = r
 Call ==                  \* the rule's functor: children's values in right-side order, exactly once
   /\ status = "run" /\ ph = "call"
   /\ LET r == red n == Len(RuleOf(r).r)
@@ -240,6 +241,8 @@ Call ==                  \* the rule's functor: children's values in right-side 
         ELSE /\ nodes' = Append(nodes, [k |-> IF IsDflt(r) THEN 2 ELSE 1, sym |-> IF IsDflt(r) THEN -1 ELSE r, ch |-> args, off |-> -1, len |-> -1, line |-> -1, col |-> -1])
              /\ vals' = Append(rest, id)
              /\ ev' = IF IsDflt(r) THEN <<"dcall", id, args, [i \in 1..n |-> lc(args[i])[1]], [i \in 1..n |-> lc(args[i])[2]]>>
+                      \* C13: a functor attached with >>= receives the caller's very object (identity 1), const iff the caller's is
+                      ELSE IF IsCtx(r) THEN <<"ccall", r, id, args, [i \in 1..n |-> lc(args[i])[1]], [i \in 1..n |-> lc(args[i])[2]], 1, IF opt.cat = 2 THEN 1 ELSE 0>>
                       ELSE IF GR(g).obsC THEN <<"call", r, id, args, [i \in 1..n |-> lc(args[i])[1]], [i \in 1..n |-> lc(args[i])[2]]>>
                       ELSE <<"tau">>
   /\ ph' = "top" /\ red' = -1
